@@ -69,7 +69,7 @@ TrHandle ==
          listOK == ~BadMethod(rt, ms) /\ ~DupMethod(rt, pat, ms)
      IN /\ Check("C05", Ev.res \in {"ok", "err"} /\ Ev.syn \in {"ok", "err"}, <<"handle fault", pat, Ev.res, Ev.msg, Ev.syn>>)
         /\ Check("C05", noIcpt => ((Ev.res = "ok" => Ev.syn = "ok")
-                                   /\ ((Live(rt) = {} /\ listOK /\ Ev.res = "err") => Ev.syn = "err")),
+                                   /\ ((lastEv = "reset" /\ listOK /\ Ev.res = "err") => Ev.syn = "err")),
                  <<"Handle vs CheckSyntax", pat, Ev.res, Ev.syn>>)
         /\ Check("C17", Ev.res \in V \/ Ev.res \notin {"ok", "err"}, <<"verdict", pat, Ev.methods, Ev.res, SetSeq(V)>>)
         /\ Check("C08", BadMethod(rt, ms) => Ev.res # "ok", <<"reserved/unknown method accepted", pat, Ev.methods>>)
